@@ -224,6 +224,16 @@ def r3(R, repo):
           and astu.src(comps[0].elt.value) == 'flatarr' and not g.ifs
   R.check(ok, key_of(ch, 'consecutive slices of width chunksize'), ch, '_chunk must cut flatarr[i:i+chunksize] for i in range(0, size, chunksize)')
   t2d, d2t = mod.assigns.get('_tuple_to_dict'), mod.assigns.get('_dict_to_tuple')
+  if not isinstance(d2t, ast.Lambda) and '_dict_to_tuple' in mod.funcs:
+    # turned into a def: the one thing that can be said without the lambda shape is how the entries are ordered
+    g_ = mod.funcs['_dict_to_tuple']
+    lex_ = [x for x in ast.walk(g_.node) if isinstance(x, ast.Call) and astu.call_name(x) == 'sorted' and astu.src(astu.kwarg(x, 'key')) not in ('int',) and 'int(' not in astu.src(x)]
+    if lex_:
+      R.fail(key_of(mod.rel, '_tuple_to_dict / _dict_to_tuple are inverse'), (g_, lex_[0]), '_dict_to_tuple orders the entries with `%s`: the keys are the decimal strings str(0..n-1), whose lexicographic order (\'0\', \'1\', \'10\', \'11\', \'2\', ...) '
+             'differs from the index order as soon as there are more than 10 entries, so the chunks of a large array are concatenated in the wrong order' % astu.short(lex_[0]))
+    else:
+      R.unsure(key_of(mod.rel, '_tuple_to_dict / _dict_to_tuple are inverse'), g_, '_dict_to_tuple is no longer the recognised lambda')
+    return
   R.require(isinstance(t2d, ast.Lambda) and isinstance(d2t, ast.Lambda), '_tuple_to_dict/_dict_to_tuple lambdas not found')
   ok = astu.src(t2d.body) == '{str(x): y for x, y in enumerate(%s)}' % t2d.args.args[0].arg
   d = d2t.args.args[0].arg
